@@ -20,6 +20,10 @@ type hist struct {
 	fresh   int  // counter for fresh names
 	log     []string
 	only    map[string]bool // when set, restrict to these ops
+	// indexFresh: the tree was just handed over by Clone/SubTree of an indexed tree (or freshly indexed): its
+	// name index must be usable as it is, without the caller refreshing it
+	indexFresh bool
+	cloneFresh bool // set by the Clone op for the step that follows
 }
 
 type opFn func(h *hist) (desc string, err error, applicable bool)
@@ -266,18 +270,23 @@ var opTable = []opDef{
 		return "SortNeighborsByTips()", nil, true
 	}},
 	{"GraftTreeOnTip", 3, func(h *hist) (string, error, bool) {
-		if err := h.t.UpdateTipIndex(); err != nil {
-			return "UpdateTipIndex()", err, true
-		}
 		tips := tipNames(h.t)
 		tip := tips[h.r.Intn(len(tips))]
+		refreshed := ""
+		if _, err := h.t.TipIndex(tip); !h.indexFresh || err != nil {
+			// a program refreshes the name index after edits; a copy of an indexed tree is used as handed over
+			if err := h.t.UpdateTipIndex(); err != nil {
+				return "UpdateTipIndex()", err, true
+			}
+			refreshed = "UpdateTipIndex+"
+		}
 		g := gen.Tree(h.r, gen.Opts{N: 2 + h.r.Intn(5), Shape: "random", RootDeg: gen.Pick(h.r, 2, 3), Lens: gen.Pick(h.r, "all", "mixed"), LenCls: "len", SupP: 0.5, SupCls: "unit"})
 		// fresh names
 		for _, m := range modelTips(g) {
 			m.Name = h.freshName()
 		}
 		err := h.t.GraftTreeOnTip(tip, mon.Build(g))
-		return fmt.Sprintf("GraftTreeOnTip(%s,%s)", tip, g.Newick()), err, true
+		return fmt.Sprintf("%sGraftTreeOnTip(%s,%s)", refreshed, tip, g.Newick()), err, true
 	}},
 	{"GraftTipOnEdge", 3, func(h *hist) (string, error, bool) {
 		es := h.t.Edges()
@@ -371,8 +380,17 @@ var opTable = []opDef{
 		return "ShuffleTips()", nil, true
 	}},
 	{"Clone", 3, func(h *hist) (string, error, bool) {
+		indexed := false
+		if tp := h.t.Tips(); len(tp) > 0 {
+			_, err := h.t.TipIndex(tp[0].Name())
+			indexed = err == nil
+		}
+		if !indexed && h.r.Intn(2) == 0 {
+			indexed = h.t.ReinitIndexes() == nil
+		}
 		h.t = h.t.Clone()
-		return "Clone()", nil, true
+		h.cloneFresh = indexed
+		return fmt.Sprintf("Clone(indexed=%v)", indexed), nil, true
 	}},
 	{"SubTree", 2, func(h *hist) (string, error, bool) {
 		var cand []*tree.Node
@@ -511,10 +529,12 @@ func (h *hist) step() (name, desc string, ok bool) {
 		op := h.pick()
 		backup := h.t.Clone()
 		bs := h.singles
+		h.cloneFresh = false
 		d, err, applicable := op.fn(h)
 		if !applicable {
 			continue
 		}
+		h.indexFresh = h.cloneFresh // any other edit ends the "as handed over" state
 		if err != nil {
 			h.t, h.singles = backup, bs
 			h.log = append(h.log, d+" -> error: "+Trunc(err.Error(), 80))
